@@ -82,6 +82,9 @@ func checkC01(c *Ctx) {
 	for i := 0; i < c.pick(10, 100); i++ {
 		progs = append(progs, staleSlotProgram(r, fmt.Sprintf("c01-slots-%d", i)))
 	}
+	for _, n := range bigFrameSizes {
+		progs = append(progs, bigFrameProgram(n))
+	}
 	b := runMiniGoSpec(c, progs, 8, "c01")
 	nb := 0
 	for _, p := range progs {
